@@ -51,7 +51,10 @@ type State struct {
 	reach *Term
 	cells map[*ssa.Alloc]*Term
 	heap  map[string]*Term
+	rec   *recInfo
 }
+
+type recInfo struct{ keys []string }
 
 func (s *State) clone() *State {
 	n := &State{reach: s.reach, cells: make(map[*ssa.Alloc]*Term, len(s.cells)), heap: make(map[string]*Term, len(s.heap))}
@@ -132,6 +135,8 @@ type FnCtx struct {
 	litText     map[*Term]string
 	oblNames    map[string]int
 	finalVals   map[string]envVar
+	defineDepth int
+	defInfos    map[string]*defineInfo
 }
 
 type deferRec struct {
@@ -174,6 +179,13 @@ func (fc *FnCtx) heapGet(st *State, key, sort string) *Term {
 		return v
 	}
 	fc.regKey(key, sort)
+	if st.rec != nil {
+		// recording state (body of a defined predicate): heap maps are bound variables
+		v := fc.tb.BoundVar("hb!"+key, sort)
+		st.heap[key] = v
+		st.rec.keys = append(st.rec.keys, key)
+		return v
+	}
 	v := fc.tb.Const("h0!"+key, sort)
 	st.heap[key] = v
 	if fc.entry != nil && fc.entry != st {
@@ -275,6 +287,7 @@ func (fc *FnCtx) resetPass() {
 	fc.cellNames = map[string][]*ssa.Alloc{}
 	fc.guardCount = map[string]int{}
 	fc.oblNames = map[string]int{}
+	fc.defInfos = nil
 	fc.eng.resetPure(fc)
 }
 
@@ -695,12 +708,14 @@ func (fc *FnCtx) assumeWellFormed(st *State, v *Term, t types.Type) {
 			tb.Implies(tb.Eq(arr, tb.Const("null", "Ref")), tb.And(tb.Eq(cp, tb.Int(0)), tb.Eq(off, tb.Int(0))))))
 		if !fc.pureMode {
 			al := fc.heapGet(st, "alloc", ArraySort("Ref", "Bool"))
-			fc.assume(st, tb.Or(tb.Eq(arr, tb.Const("null", "Ref")), tb.Select(al, arr)))
+			_ = al
+			fc.assume(st, fc.alive(st, arr))
 		}
 	case *types.Pointer, *types.Map:
 		if !fc.pureMode && v.Sort == "Ref" {
 			al := fc.heapGet(st, "alloc", ArraySort("Ref", "Bool"))
-			fc.assume(st, tb.Or(tb.Eq(v, tb.Const("null", "Ref")), tb.Select(al, v)))
+			_ = al
+			fc.assume(st, fc.alive(st, v))
 		}
 	case *types.Struct:
 		srt := fc.so.Sort(t)
